@@ -279,6 +279,12 @@ def check_item(spec):
             b = conc(harness(spec, qlasskit, cin)())
         except Exception as e:
             b = "exc:" + type(e).__name__
+        # the real classes on this concrete input: a violated postcondition is a finding whatever
+        # the twin says (this also catches state that leaks from one call to the next)
+        ro, rk = run_real(spec, qlasskit, cin)
+        if not rk["holds"]:
+            res["findings"].append({"kind": "codec-" + ob, "what": "%s %s: input %s -> %s (call #%d of this process)" % (tn, ob, show(cin), rk["why"], _ + 1), "cex": {"input": show(cin)}, "replayed": True})
+            break
         if a != b:
             res.update(status="inconclusive", note="differential concretisation: twin %s != real %s on %s" % (str(a)[:80], str(b)[:80], show(cin)))
     return st.into(res)
